@@ -557,6 +557,15 @@ impl BytecodeBuilder {
     pub fn reserve_registers(&mut self, count: u8) -> Result<Register, JsError> {
         self.registers.reserve_range(count)
     }
+
+    /// Reserve a window of `count` consecutive registers for a construct with `count`
+    /// parts (array elements, call arguments, template parts, parameters).
+    /// Fails when the parts cannot all be addressed with a register number.
+    pub fn reserve_register_window(&mut self, count: usize) -> Result<Register, JsError> {
+        let count = u8::try_from(count)
+            .map_err(|_| JsError::internal_error("Too many registers needed (max 255)"))?;
+        self.registers.reserve_range(count)
+    }
 }
 
 impl Default for BytecodeBuilder {
